@@ -125,6 +125,31 @@ nd::harnesses! {
         assert!(obj.cur().ro_val() == cur.cur().ro_val());
     }
 
+    /// C08: a group with two aliased instantiations of one generic trait, implementor enabling only one of them: every
+    /// operation succeeds for the enabled alias and fails for the other.
+    #[kani::unwind(8)]
+    fn r7_partial_aliased_instantiations() {
+        let v: u32 = nd::any();
+        let grp = group_obj!(Sh8(v) as AliasGrp);
+        assert!(as_ref!(grp impl Zeta).is_some() && as_ref!(grp impl Alpha).is_none());
+        assert!(as_ref!(grp impl Zeta + Alpha).is_none());
+        let op: u8 = nd::any();
+        nd::assume(op < 3);
+        match op {
+            0 => {
+                let c = cast!(grp impl Zeta);
+                assert!(c.is_some(), "cast to an enabled alias succeeds");
+                let c = c.unwrap();
+                assert!(Getter::<u8>::fetch(&c) == v as u8 ^ 0x18 && c.main_t() == v ^ 0xA8);
+            }
+            1 => assert!(cast!(grp impl Alpha).is_none(), "cast to the alias that is not enabled fails"),
+            _ => {
+                let c = into!(grp impl Zeta);
+                assert!(c.is_some());
+            }
+        }
+    }
+
     /// C13: a method marked `#[int_result]` whose success payload is a WRAPPED associated type is integer-coded too.
     fn r7_int_result_with_wrapped_payload_is_int_coded() {
         let p = P::new(nd::any());
